@@ -57,14 +57,7 @@ class C04(S4UCheck):
         return plan
 
     def oracle(self, plan, res):
-        v = self.crash_violations(plan, res)
-        if any(c == 'hang' for c, _ in v):
-            return v
-        m = self.model(plan, res)
-        v += [(c, msg) for c, msg in m.viol if c.startswith(('mutex', 'trylock'))]
-        if not any(c == 'crash' for c, _ in v):
-            v += self.final_state_violations(plan, res)
-        return v
+        return self.sync_violations(plan, res, ('mutex', 'trylock'))
 
     def nontrivial(self, plan, res):
         st = self.model(plan, res).stats
